@@ -486,8 +486,7 @@ def replay(scripts, tag, timeout=3000):
             for sc in sh:
                 f.write(json.dumps(sc) + "\n")
         op = os.path.join(scratch, "trace%d.ndjson" % i)
-        p = subprocess.Popen([C.NVH, "replay", sp, op, os.path.join(scratch, "db%d" % i)],
-                             stdout=subprocess.PIPE, stderr=subprocess.PIPE, text=True, errors="replace")
+        p = C.Proc([C.NVH, "replay", sp, op, os.path.join(scratch, "db%d" % i)], os.path.join(scratch, "log%d" % i))
         procs.append((p, op))
     runs = {}
     hangs = []
